@@ -122,8 +122,17 @@ pub fn poly_case(cx: &mut Ctx, n: u64, case: &Value) {
                     cx.bad("C05", "orient_repeated_closing_vertex", case, json!({"what": format!("{dir:?} shell variant {ei}"), "got": gj::geometry_to_json(&Geometry::Polygon(o))}));
                 }
             }
-            for (what, ring) in [("ring", e.clone()), ("ring with a repeated vertex", LineString::new(dup)), ("every vertex three times", tripled),
-                                 ("closing vertex three times", LineString::new(closed_thrice)), ("first vertex three times", LineString::new(opened_thrice))] {
+            // collinear vertices: every edge split at its midpoint, and the ring started at each of the first midpoints (a start
+            // vertex in the middle of a straight side, whatever side is lowest / leftmost)
+            let mut with_mids: Vec<Coord<f64>> = vec![];
+            for w in e.0.windows(2) { with_mids.push(w[0]); with_mids.push(Coord { x: (w[0].x + w[1].x) / 2.0, y: (w[0].y + w[1].y) / 2.0 }); }
+            let mid_forms: Vec<(String, LineString<f64>)> = (0..with_mids.len().min(8)).filter(|k| k % 2 == 1).map(|k| {
+                let mut r: Vec<Coord<f64>> = with_mids[k..].iter().chain(with_mids[..k].iter()).cloned().collect();
+                r.push(r[0]);
+                (format!("edge midpoints inserted, started at midpoint {k}"), LineString::new(r))
+            }).collect();
+            for (what, ring) in mid_forms.iter().map(|(a, b)| (a.as_str(), b.clone())).chain([("ring", e.clone()), ("ring with a repeated vertex", LineString::new(dup)), ("every vertex three times", tripled),
+                                 ("closing vertex three times", LineString::new(closed_thrice)), ("first vertex three times", LineString::new(opened_thrice))]) {
                 let got = ring.winding_order();
                 if got == Some(want) { cx.ok("winding_order"); } else {
                     cx.bad("C05", "winding_order", case, json!({"what": format!("{what}, shell variant {ei}"), "ring": ring.0.iter().map(|c| [c.x, c.y]).collect::<Vec<_>>(), "got": format!("{got:?}"), "want": format!("{want:?}")}));
